@@ -67,6 +67,7 @@ RUNS = {
     ],
     "C19": [
         {"name": "K8-readdir", "mode": "k19", "budget": (600, 6000), "nontrivial": r"pages=([3-9]|\d\d)", "keyfn": "generic"},
+        {"name": "K4-readdir-replies-within-msize", "mode": "k13", "budget": (60, 1500), "nontrivial": r"^rtyp=(117|41) ", "keyfn": "k4"},
         {"name": "K8-mapper-never-forgets", "mode": "kmapbig", "budget": (3, 40), "nontrivial": r".", "keyfn": "generic"},
         {"name": "K8-qid-type-of-every-host-file-kind", "mode": "kltype", "budget": (2, 20), "nontrivial": r"kind=", "keyfn": "generic"},
     ],
